@@ -31,7 +31,8 @@ MC_THOROUGH = ["OfferFlowMCt.cfg", "OfferFlowMC_mant.cfg", "OfferFlowMC_holdt.cf
                "OfferFlowMC_stalet.cfg", "OfferFlowMC_stalemant.cfg"]
 MC_MUTANTS = ["OfferFlowMC_mut_dupAwait.cfg", "OfferFlowMC_mut_secondInvoice.cfg", "OfferFlowMC_mut_earlyExpiry.cfg",
               "OfferFlowMC_mut_abandonSilent.cfg", "OfferFlowMC_mut_errOther.cfg", "OfferFlowMC_mut_lateInvoice.cfg",
-              "OfferFlowMC_mut_answerAltered.cfg", "OfferFlowMC_mut_manualAutopay.cfg", "OfferFlowMC_mut_staleNotTaken.cfg"]
+              "OfferFlowMC_mut_answerAltered.cfg", "OfferFlowMC_mut_manualAutopay.cfg", "OfferFlowMC_mut_staleNotTaken.cfg",
+              "OfferFlowMC_mut_dupSendsRequest.cfg"]
 # what the behaviours of the design model must have shown (vacuity of the design check)
 MC_FEATURES = ["paid", "sent", "htlc-failed", "expired", "retransmit", "pay-refused", "refused-fulfilled", "id-reused", "request-twice",
                "invoice-twice", "invoice-while-in-flight", "invoice-after-sent", "invoice-for-gone-id", "abandon-awaiting",
@@ -39,17 +40,18 @@ MC_FEATURES = ["paid", "sent", "htlc-failed", "expired", "retransmit", "pay-refu
                "failed-repeated", "invoice-shown", "paid-by-user", "sendinv-dup", "sendinv-unexpected", "abandon-invoice-received",
                "second-invoice-not-shown", "restart-forgets-invoice", "altered-offer-unanswered", "idempotency-over",
                "dropped-invreq", "dropped-invoice", "stale-restart", "stale-awaiting-takes-htlc", "stale-invoice-received-takes-htlc",
-               "stale-unknown-id-takes-htlc"]
+               "stale-unknown-id-takes-htlc", "refused-call-other-offer"]
 
 ASSUMPTIONS = [
     "every node is the implementation under test; the network (the harness) may deliver, drop, duplicate, delay and reorder onion "
     "messages at will but does not forge them; HTLC traffic is delivered in order; channels close only through a stale restart; monitor "
     "persistence is synchronous",
-    "a payment id is only ever used for one offer: the payer cannot tell an invoice that answers an earlier (or a refused) request of the "
-    "same id from the one it waits for -- the library asks for a new payment id to retry (ChannelManager::send_payment_for_bolt12_invoice); "
-    "a refused pay_for_offer still sends its invoice request (pay_for_offer_intern enqueues before the duplicate check), so a second call "
-    "naming ANOTHER offer under a pending id can get that other offer paid under the id (probe `dup-call-other-offer`, not part of the "
-    "default runs)",
+    "a payment id that is used AGAIN after an earlier use of it ended (failed, expired, abandoned, idempotency window over) names the "
+    "same offer: the payer cannot tell an invoice that answers a request of the earlier use from the one it waits for -- the library asks "
+    "for a new payment id to retry (ChannelManager::send_payment_for_bolt12_invoice); probe `reused-id-other-offer`. A call that is "
+    "REFUSED (DuplicatePaymentId) may name any offer and amount and must have no effect: the default scripts make such calls and try to "
+    "hand over their request and invoice (fixed defect /repo 544d6a1: pay_for_offer_intern used to enqueue the request before the "
+    "duplicate check, and its invoice was paid under the pending id)",
     "a node restarts from its last manager snapshot: in sync with its monitors, or -- `stale` -- after HTLCs were locked into the "
     "monitors since (LDK closes the channel and takes the HTLCs up from the monitors; a miner then mines every broadcast transaction as "
     "soon as it can confirm until all timelocks have expired, and the specification follows the chain). Left out of the default runs: a "
@@ -74,7 +76,8 @@ def convert_script(s, nodes, rng):
     payer = nodes - 1
     amt = rng.choice([1000000, 5000000, 20000000])
     ops = [{"op": "offer", "node": 0, "amt": amt, "variant": "own"},
-           {"op": "offer", "node": 0, "amt": amt + 1000, "variant": "tampered", "base": 1}]
+           {"op": "offer", "node": 0, "amt": amt + 1000, "variant": "tampered", "base": 1},
+           {"op": "offer", "node": 0, "amt": 2 * amt, "variant": "own"}]
     if s.get("hold"):
         ops.append({"op": "hold", "node": payer, "on": True})
     for o in s["ops"]:
@@ -416,6 +419,66 @@ def fam_disc(rng, count):
     return out
 
 
+def fam_dupcall(rng, count):
+    """A second call for a pending id names ANOTHER offer (another amount) and is refused: it must have no effect. Whatever it
+    may have sent is handed over -- its request, the invoice answering it --, with the first call's request lost, delivered or
+    answered, before / after a restart, the user paying by hand or not."""
+    out = []
+    for i in range(count):
+        nodes = 2 + (i % 2)
+        manual = (i // 2) % 4 == 3
+        amt = rng.choice([1000000, 5000000, 10000000])
+        payer, cfg, ops = _base(nodes, manual, amt)
+        ops.append({"op": "offer", "node": 0, "amt": rng.choice([2 * amt, amt + 3000, amt // 2]), "variant": "own"})
+        first = (i // 8) % 4          # the first call's request: lost / held / delivered / answered and paid
+        ops.append({"op": "pay", "node": payer, "id": 1, "off": 1})
+        if first == 0: ops.append({"op": "drop", "kind": "invreq", "call": 1})
+        if first >= 2: ops.append({"op": "deliver", "kind": "invreq", "call": 1, "n": 0, "keep": rng.random() < 0.3})
+        if first == 3:
+            ops.append({"op": "deliver", "kind": "invoice", "call": 1, "n": 0})
+            if manual: ops.append({"op": "sendinv", "node": payer, "id": 1, "which": 0})
+            if rng.random() < 0.5: ops.append({"op": "pump"})
+        if rng.random() < 0.2:
+            ops += [{"op": "save", "node": payer}, {"op": "restart", "node": payer, "use": "last"}, {"op": "reconnect_all"}, {"op": "pump"}]
+        ops.append({"op": "pay", "node": payer, "id": 1, "off": 1, "alt_off": 2})
+        if rng.random() < 0.3:
+            ops.append({"op": "msgrecv", "node": payer})
+        ops.append({"op": "deliver", "kind": "invreq", "call": 2, "n": 0, "keep": rng.random() < 0.3})
+        if rng.random() < 0.3:
+            ops.append({"op": "tick", "node": payer})
+        ops.append({"op": "deliver", "kind": "invoice", "call": 2, "n": 0, "keep": rng.random() < 0.3})
+        if manual:
+            ops += [{"op": "sendinv", "node": payer, "id": 1, "which": 0}, {"op": "sendinv", "node": payer, "id": 1, "which": 1}]
+        if rng.random() < 0.3:
+            ops.append({"op": "pay", "node": payer, "id": 1, "off": 1, "alt_off": 2})
+            ops.append({"op": "deliver_all"})
+        ops += [{"op": "pump"}, {"op": rng.choice(["claim", "claim", "failback"])}, {"op": "pump"}]
+        ops.append({"op": "deliver", "kind": "invoice", "call": 2, "n": 0})
+        ops.append({"op": "settle", "fail": rng.random() < 0.2})
+        out.append({"cfg": cfg, "ops": ops})
+    return out
+
+
+def with_other_offer(script, rng, p=0.6):
+    """One more offer of the payee (its own, another amount); calls for an id that is in use name it (`alt_off`: the engine
+    asks list_recent_payments): a call that is going to be refused asks for something else than the accepted one."""
+    ops = script["ops"]
+    offers = [o for o in ops if o["op"] == "offer"]
+    if not offers or any("alt_off" in o for o in ops):
+        return script
+    k = max(i for i, o in enumerate(ops) if o["op"] == "offer")
+    alt = len(offers) + 1
+    new = {"op": "offer", "node": offers[0]["node"], "amt": rng.choice([2 * offers[0]["amt"], offers[0]["amt"] + 3000]), "variant": "own"}
+    out = ops[:k + 1] + [new]
+    for o in ops[k + 1:]:
+        if o["op"] == "pay" and rng.random() < p:
+            o = dict(o)
+            o["alt_off"] = alt
+        out.append(o)
+    script["ops"] = out
+    return script
+
+
 def fam_stale(rng, count):
     """The payer's manager is persisted while the id awaits its invoice (or the user was shown it), the invoice is paid
     (HTLCs are locked into the monitors), the payer restarts from the snapshot: LDK closes the channel and takes the HTLC
@@ -459,7 +522,7 @@ def fam_stale(rng, count):
 
 FAMILIES = [("dup", fam_dup, 140), ("expiry", fam_expiry, 108), ("abandon", fam_abandon, 108), ("restart", fam_restart, 160),
             ("inverr", fam_inverr, 64), ("refund", fam_refund, 80), ("altered", fam_altered, 24), ("idem", fam_idem, 40), ("disc", fam_disc, 60),
-            ("stale", fam_stale, 120)]
+            ("stale", fam_stale, 120), ("dupcall", fam_dupcall, 128)]
 
 
 def random_script(rng):
@@ -544,6 +607,14 @@ PROBES = [
         {"op": "pay", "node": 1, "id": 1, "off": 1}, {"op": "pay", "node": 1, "id": 1, "off": 2},
         {"op": "drop", "kind": "invreq", "call": 1}, {"op": "deliver", "kind": "invreq", "call": 2}, {"op": "deliver", "kind": "invoice", "call": 2},
         {"op": "pump"}, {"op": "claim"}, {"op": "settle"}]}),
+    # an id whose first use expired is used again for another offer; the invoice answering the FIRST use's request arrives and is
+    # paid under the second use (the remaining assumption "an id that is used again names the same offer")
+    ("reused-id-other-offer", {"cfg": {"nodes": 2, "manual": [False, False]}, "ops": [
+        {"op": "offer", "node": 0, "amt": 5000000, "variant": "own"}, {"op": "offer", "node": 0, "amt": 9000000, "variant": "own"},
+        {"op": "pay", "node": 1, "id": 1, "off": 1}, {"op": "tick", "node": 1}, {"op": "tick", "node": 1},
+        {"op": "pay", "node": 1, "id": 1, "off": 2}, {"op": "drop", "kind": "invreq", "call": 2},
+        {"op": "deliver", "kind": "invreq", "call": 1}, {"op": "deliver", "kind": "invoice", "call": 1},
+        {"op": "pump"}, {"op": "claim"}, {"op": "settle"}]}),
     # the user handles PaymentFailed (abandon), the node restarts from a snapshot taken before: the id is awaiting again and a
     # late invoice is paid: PaymentSent after PaymentFailed
     ("restart-revives-failed-id", {"cfg": {"nodes": 2, "manual": [False, False]}, "ops": [
@@ -619,6 +690,12 @@ def trace_stats(path, c):
             e = r["ev"]
             if e == "pay":
                 inc("pay_%s_%s" % (r["kind"], r["res"]))
+                if r["res"] == "ok":
+                    st.setdefault("accepted", {})[r["pid"]] = (r["off"], r["amt"])
+                elif r["res"] == "dup" and r["pid"] in st.get("accepted", {}) and st["accepted"][r["pid"]] != (r["off"], r["amt"]):
+                    # a refused call that names another offer / amount than the accepted one
+                    inc("dup_call_other_offer")
+                    st["other"] = True
                 if not r["okoffer"]:
                     inc("pay_not_own_offer")
                 if r["res"] == "dup" and st["restart"]:
@@ -629,6 +706,8 @@ def trace_stats(path, c):
                     inc("invreq_after_restart")
             elif e == "deliver":
                 inc("deliver_" + r["kind"])
+                if st.get("other") and r["kind"] in ("invreq", "invoice"):
+                    inc("deliveries_after_dup_call_other_offer")
                 if r["nth"] > 1:
                     inc("deliver_%s_again" % r["kind"])
                 if r["kind"] == "invoice" and st.get("stale"):
@@ -676,7 +755,7 @@ NEED = {"pay_offer_ok": 300, "pay_offer_dup": 60, "pay_refund_ok": 30, "pay_not_
         "sendinv_dup": 5, "sendinv_unexpected": 5, "claimable_offer": 100, "claimable_refund": 10, "restart": 80, "restart_with_id_awaiting": 40,
         "dup_refused_after_restart": 10, "invreq_after_restart": 10, "runs_with_repeated_PaymentFailed": 3, "tick": 200, "abandon": 80,
         "msgrecv": 60, "quiet": 500, "restart_stale": 60, "chain_commitment": 60, "chain_htlc_claimed": 10, "chain_htlc_timeout": 15,
-        "invoice_after_stale_restart": 30}
+        "invoice_after_stale_restart": 30, "dup_call_other_offer": 200, "deliveries_after_dup_call_other_offer": 200}
 
 
 # ------------------------------------------------------------------------------------------ binding self-test
@@ -1010,12 +1089,12 @@ def run_part(pid, tier, seed, wd):
         batches.append(("tlc", conv))
     fams = []
     for name, fn, count in FAMILIES:
-        made = fn(rng, count * (6 if thorough else 1))
+        made = [with_other_offer(x, rng) for x in fn(rng, count * (6 if thorough else 1))]
         for s in made:
             s["family"] = name
         fams += made
     batches.append(("families", fams))
-    batches.append(("random", [random_script(rng) for _ in range(6000 if thorough else 700)]))
+    batches.append(("random", [with_other_offer(random_script(rng), rng) for _ in range(6000 if thorough else 700)]))
     if only:
         batches = [b for b in batches if b[0] in only]
     nviol, total_events, total_runs, executed, skipped, panics = 0, 0, 0, 0, 0, 0
